@@ -160,10 +160,9 @@ PLANS["C01"] = {
     "level": "model_checking",
     "verus": ["u123", "u4"],
     "kani": {"quick": ["u5::is_operator_binary_all", "u4::unary_apply", "u4::flatop_apply", "u4::unary_append_after", "u4::unary_remove_latest", "u4::unary_append_iter",
-                       "u6::flat_perm_desc_3", "u6::flat_ltr_3", "u6::flat_last_3", "u6::deep_perm_desc_3", "u6::deep_ltr_3"],
+                       "u6::flat_perm_desc_3", "u6::flat_ltr_3", "u6::flat_last_3", "u6::deep_perm_desc_3", "u6::deep_ltr_3", "u6::deep_perm_desc_4", "u6::deep_ltr_4"],
              "thorough": ["u5::is_operator_binary_all", "u4::unary_apply", "u4::flatop_apply", "u4::unary_append_after", "u4::unary_remove_latest", "u4::unary_append_iter",
-                          "u6::flat_perm_desc_3", "u6::flat_ltr_3", "u6::flat_last_3", "u6::deep_perm_desc_3", "u6::deep_ltr_3",
-                          "u6::flat_perm_desc_4", "u6::flat_ltr_4", "u6::flat_last_4", "u6::deep_perm_desc_4", "u6::deep_ltr_4"]},
+                          "u6::flat_perm_desc_3", "u6::flat_ltr_3", "u6::flat_last_3", "u6::deep_perm_desc_3", "u6::deep_ltr_3", "u6::deep_perm_desc_4", "u6::deep_ltr_4"]},
     "kani_timeout": {"quick": 900, "thorough": 3000},
     "kani_jobs": {"thorough": 6},
     "owns_unprefixed": True,
@@ -175,8 +174,8 @@ PLANS["C01"] = {
                     "constant folding (C02)", "constants standing for their values (tokenizer)"],
     "bounds": {"quick": ["reduction kernel (Verus): unbounded", "unary composition UnaryOp::apply / remove_latest / FlatOp::apply (Verus unit u4): unbounded, all chain lengths",
                          "sign rule: complete finite domain", "append_after / append_after_iter: small concrete chains (Kani) + long chains (sampled native probe)",
-                         "application order: 3 operators from a symbolic 3-entry table, priorities 0..=99, depth 0..=2"],
-               "thorough": ["as quick, application order with 4 operators"]},
+                         "application order: flat form 3 operators, deep form 3 and 4 operators (4: base priorities 0..=3), from a symbolic 3-entry table, priorities 0..=99, depth 0..=2"],
+               "thorough": ["as quick (the flat order function with 4 operators exceeds 28 GB in CBMC's symbolic execution since the repair of the regrouping rule and is not part of any tier); sampled native probes as in quick"]},
     "explanation": "Partial: decided are (a) the reduction of an operand array under a given order (Verus, all sizes), (b) the order function (bounded), (c) unary composition (bounded), (d) the unary/binary role of signs (complete).",
 }
 PLANS["C01"]["cex_map"] = dict(PLANS["C14"]["cex_map"], **{"unaryop_apply": ["u4::unary_apply"], "UnaryOp<T>::remove_latest": ["u4::unary_remove_latest"],
